@@ -20,6 +20,22 @@ from typing import TypeVar
 T = TypeVar("T")
 
 
+def stable_item_repr(item: object) -> str:
+    """Text that identifies a sketch item identically in every interpreter.
+
+    ``repr()`` of a set or frozenset lists the elements in hash order, which
+    for str/bytes elements changes with PYTHONHASHSEED; hashing that text made
+    seeded sketches answer differently from one process to the next.  Sets are
+    therefore written with their elements sorted; tuples are descended into so
+    that sets nested inside them are covered as well.
+    """
+    if isinstance(item, (set, frozenset)):
+        return type(item).__name__ + "({" + ", ".join(sorted(stable_item_repr(x) for x in item)) + "})"
+    if type(item) is tuple:
+        return "(" + ", ".join(stable_item_repr(x) for x in item) + ",)"
+    return repr(item)
+
+
 class Sketch(ABC):
     """Base protocol for all streaming/sketching algorithms.
 
